@@ -282,9 +282,14 @@ class C11:
             i1_ = plain.find(wmid)
             for i, ch in enumerate(plain):
                 if ch in ' \n\t':
+                    # generated white space (indentation, separators of the scheme) belongs to its own equation;
+                    # all other white space is a copy of source white space
+                    a, e = b.eqs[0] if i < i1_ else b.eqs[1]
+                    if not (src[nums[i] - 1] in ' \n\t' or a < nums[i] <= e):
+                        viol.append({'clause': 'generated white space maps inside its own equation', 'sig': 'C11:wspos:' + tag,
+                                     'detail': dict(det, index=i, position=nums[i], span=[a + 1, e])})
+                        break
                     continue
-                if any(plain.startswith(w, max(0, i - 3), ) and False for w in ()):
-                    pass
                 inword = any(0 <= i - plain.find(w) < 4 for w in b.words if plain.find(w) >= 0)
                 if inword:
                     continue
